@@ -391,6 +391,9 @@ type Exec struct {
 	harness string
 	ghostT  int64
 	lastNow *smt.Term
+	idleHook value
+	inHook   bool
+	interp   *interpreter
 	model   map[string]uint64 // an assignment known to satisfy pc (nil if none is known)
 	redir   map[string]*ssa.Function
 }
@@ -776,6 +779,7 @@ func (p *Program) RunPath(fn *ssa.Function, prefix []Decision, c *smt.Ctx, s *sm
 		x:       x,
 		p:       p,
 	}
+	x.interp = i
 	runtimePkg := i.prog.ImportedPackage("runtime")
 	if runtimePkg == nil {
 		panic("ssa.Program doesn't include runtime package")
